@@ -191,6 +191,13 @@ fn chain(ctx: &mut Ctx, prop: &'static str) -> R {
     let cl_secret: u64 = 17 + tag % 60;
     let mut orig = gen_plain_headers(ctx, 6);
     orig.retain(|(n, _)| n != "host");
+    // C14 only (no draw for the other properties): the original request names its host itself,
+    // as C02's quantifier anticipates ("explicit or missing Host ... after 0..3 redirects")
+    let explicit_host: Option<Vec<u8>> = if prop == "C14" && ctx.chance(1, 8) { Some(uri0.authority().into_bytes()) } else { None };
+    if let Some(h) = &explicit_host {
+        orig.insert(0, ("host".into(), h.clone()));
+        ctx.count("p:original_request_with_explicit_host");
+    }
     let with_auth = prop == "C13" || ctx.chance(2, 3);
     let with_cookie = prop == "C13" || ctx.chance(2, 3);
     if with_auth {
@@ -575,7 +582,13 @@ fn chain(ctx: &mut Ctx, prop: &'static str) -> R {
                         h == cur.uri.host || h == format!("{}:{}", cur.uri.host, cur.uri.eff_port())
                     };
                     if !ok {
-                        fail!("C14.wrong_host_header", "", "hop {}: Host header {:?} does not name {} (chain: {})", depth, host_vals.iter().map(|v| show_bytes(v)).collect::<Vec<_>>(), cur.uri.host, trail.join(" => "));
+                        // narrow signature of known finding D16: the one Host line on the wire is the
+                        // original request's own Host header, carried over to another origin
+                        let stale = explicit_host.as_ref().map_or(false, |h| host_vals.len() == 1 && host_vals[0] == h);
+                        let known = ctx.report("C14.wrong_host_header", if stale { "inherited-explicit-host" } else { "" }, || format!("hop {}: Host header {:?} does not name {} (chain: {})", depth, host_vals.iter().map(|v| show_bytes(v)).collect::<Vec<_>>(), cur.uri.host, trail.join(" => ")))?;
+                        if known {
+                            ctx.count("p:stale_explicit_host_at_another_origin");
+                        }
                     }
                 }
             }
